@@ -503,7 +503,93 @@ class ObjModels:
 			for op in ("lt", "le", "gt", "ge"):
 				extra["%s::%s" % (t, op)] = key_cmp(op)
 
+		def deref_val(ip, st, x):
+			while isinstance(x, Ref):
+				x = self.rd(ip, st, x)
+			return x
+
+		def vec_eq(ip, st, a):
+			x, y = deref_val(ip, st, a[0])[1], deref_val(ip, st, a[1])[1]
+			if len(x) != len(y):
+				return [(st, False)]
+			out = []
+			work = [(st, 0)]
+			while work:
+				s, j = work.pop()
+				if j >= len(x):
+					out.append((s, True))
+					continue
+				if x[j].fields[1] != y[j].fields[1]:
+					out.append((s, False))
+					continue
+				for s2, eq in self.key_eq(s, x[j].fields[0], y[j].fields[0]):
+					if eq:
+						work.append((s2, j + 1))
+					else:
+						out.append((s2, False))
+			return out
+
+		def vec_cmp(ip, st, a):
+			x, y = deref_val(ip, st, a[0])[1], deref_val(ip, st, a[1])[1]
+			O = lambda n: Agg("Ordering", n, ())
+			out = []
+			work = [(st, 0)]
+			while work:
+				s, j = work.pop()
+				if j >= len(x) or j >= len(y):
+					out.append((s, O("Equal" if len(x) == len(y) else ("Less" if len(x) < len(y) else "Greater"))))
+					continue
+				kx, ky = key_of(x[j].fields[0]), key_of(y[j].fields[0])
+				for s2, eq in self.keys.split(s, "eq", kx, ky):
+					if eq:
+						vx, vy = x[j].fields[1], y[j].fields[1]
+						if vx == vy:
+							work.append((s2, j + 1))
+						else:
+							out.append((s2, O("Less" if vx < vy else "Greater")))
+						continue
+					for s3, lt in self.keys.split(s2, "lts", kx, ky):
+						out.append((s3, O("Less" if lt else "Greater")))
+			return out
+
+		def vec_hash(ip, st, a):
+			x = deref_val(ip, st, a[0])[1]
+			h = self.rd(ip, st, a[1])
+			self.wr(ip, st, a[1], ("hasher", h[1] + (("len", len(x)),) + tuple((key_of(e.fields[0]), e.fields[1]) for e in x)))
+			return UNIT
+
+		def slice_iter(ip, st, a):
+			return Agg("SliceIter", None, (a[0], 0))
+
+		def slice_iter_next(ip, st, a):
+			it = self.rd(ip, st, a[0])
+			ref, pos = it.fields
+			v = deref_val(ip, st, ref)
+			if pos >= len(v[1]):
+				return NONE
+			self.wr(ip, st, a[0], Agg("SliceIter", None, (ref, pos + 1)))
+			base_ref = ref
+			while isinstance(self.rd(ip, st, base_ref), Ref):
+				base_ref = self.rd(ip, st, base_ref)
+			return some(Ref(base_ref[0], base_ref[1], base_ref[2] + (pos,)))
+
 		base = {
+			"Vec::new": one(lambda ip, st, a: ("vec", ())),
+			"<&Vec as IntoIterator>::into_iter": one(slice_iter),
+			"core::slice::iter": one(slice_iter),
+			"std::slice::iter": one(slice_iter),
+			"<std::slice::Iter as IntoIterator>::into_iter": one(lambda ip, st, a: a[0]),
+			"<std::slice::Iter as Iterator>::next": one(slice_iter_next),
+			"<core::slice::Iter as Iterator>::next": one(slice_iter_next),
+			"<object::Entry as Clone>::clone": one(lambda ip, st, a: deref_val(ip, st, a[0])),
+			"<SmallString as Clone>::clone": one(lambda ip, st, a: deref_val(ip, st, a[0])),
+			"<Value as Clone>::clone": one(lambda ip, st, a: deref_val(ip, st, a[0])),
+			"<Vec as Clone>::clone": one(lambda ip, st, a: deref_val(ip, st, a[0])),
+			"<IndexMap as Clone>::clone": one(lambda ip, st, a: deref_val(ip, st, a[0])),
+			"<Vec as PartialEq>::eq": vec_eq,
+			"<Vec as Ord>::cmp": vec_cmp,
+			"<Vec as Hash>::hash": one(vec_hash),
+			"Option::Some": one(lambda ip, st, a: some(a[0])),
 			"Object::iter_mut": one(obj_iter_mut),
 			"<object::IterMut as IntoIterator>::into_iter": one(lambda ip, st, a: a[0]),
 			"<object::IterMut as Iterator>::next": one(iter_mut_next),
@@ -604,6 +690,10 @@ class ObjProgram:
 			if m:
 				self.iters.setdefault(m.group(2), {})[m.group(1)] = f
 				continue
+			m = re.match(r"^object::<impl at src/object/mod\.rs:[0-9: ]+>::(clone|eq|cmp|partial_cmp|hash)\(_1: &Object", h)
+			if m:
+				self.by["@" + m.group(1)] = f
+				continue
 			if "{closure#" in h:
 				self.closures.append(f)
 		self.last = mirx.parse_mir(LAST_TEMPLATE)[0]
@@ -633,8 +723,13 @@ class ObjProgram:
 					return f
 			return None
 		if callee == "@next":
-			# the receiver is a reference to the iterator (possibly through the reference held by synthetic_last)
 			return None
+		# any other method of Object / Default for Object whose MIR is in the dump
+		m = re.match(r"^(?:<Object as \w+>|Object)::(\w+)$", callee)
+		if m and m.group(1) not in ("iter_mut",):
+			for f in self.fns:
+				if "src/object/mod.rs" in f.header and re.search(r"::%s\((_1: (&mut |&)?Object\b|\) -> Object)" % re.escape(m.group(1)), f.header):
+					return f
 		return None
 
 	def encoded(self):
@@ -690,6 +785,7 @@ class Explorer:
 		self.violations = []
 		self.samples = []
 		self.sample_every = 25
+		self.with_content = True
 
 	# ---- running one MIR function to completion on a state whose root frame holds the object
 	def call(self, st, fn, args):
@@ -959,6 +1055,65 @@ class Explorer:
 					out.append((s2, m2))
 		return out
 
+	def content_checks(self, st, model, hist):
+		"""C14: ==, cmp, partial_cmp, hash and clone depend on the entries only (an object with the
+		same entries and an EMPTY index is equal, compares Equal, hashes identically); the clone has
+		the same entries and the same index; a strict prefix is a different, smaller object"""
+		prog = self.prog
+		if not all(k in prog.by for k in ("@clone", "@eq", "@cmp", "@partial_cmp", "@hash")):
+			raise MirError("Object's Clone/PartialEq/Ord/Hash impls not found in the MIR dump")
+		o = self.obj(st)
+		twin = Agg("Object", None, (o.fields[0], ("imap", ())))
+		st.frames[0].locals[5] = twin
+		cur = [st]
+
+		def run(states, fn, args, want, label):
+			nxt = []
+			for s in states:
+				for s2, res in self.call(s, fn, args):
+					if not want(res, s2):
+						self.violation(s2, hist, label, "returned %r" % (res,))
+					else:
+						nxt.append(s2)
+			return nxt
+
+		eqv = lambda r, s: r is True
+		cur = run(cur, prog.by["@eq"], [Ref(0, 1, ()), Ref(0, 5, ())], eqv, "C14:object-eq-ignores-the-index")
+		cur = run(cur, prog.by["@cmp"], [Ref(0, 1, ()), Ref(0, 5, ())], lambda r, s: isinstance(r, Agg) and r.variant == "Equal", "C14:object-cmp-ignores-the-index")
+		cur = run(cur, prog.by["@partial_cmp"], [Ref(0, 1, ()), Ref(0, 5, ())], lambda r, s: isinstance(r, Agg) and r.variant == "Some" and r.fields[0].variant == "Equal", "C14:partial-cmp-is-some-cmp")
+		out = []
+		for s in cur:
+			s.frames[0].locals[6] = ("hasher", ())
+			s.frames[0].locals[7] = ("hasher", ())
+			for s2, _ in self.call(s, prog.by["@hash"], [Ref(0, 1, ()), Ref(0, 6, ())]):
+				for s3, _ in self.call(s2, prog.by["@hash"], [Ref(0, 5, ()), Ref(0, 7, ())]):
+					if s3.frames[0].locals[6] != s3.frames[0].locals[7]:
+						self.violation(s3, hist, "C14:object-hash-ignores-the-index", "%r vs %r" % (s3.frames[0].locals[6], s3.frames[0].locals[7]))
+					else:
+						out.append(s3)
+		cur, out = out, []
+		for s in cur:
+			for s2, c in self.call(s, prog.by["@clone"], [Ref(0, 1, ())]):
+				o2 = self.obj(s2)
+				if not (isinstance(c, Agg) and c.ty == "Object" and c.fields[0] == o2.fields[0] and sorted(c.fields[1][1]) == sorted(o2.fields[1][1])):
+					self.violation(s2, hist, "C14:clone-has-the-same-entries-and-a-working-index", "clone %r of %r" % (c, o2))
+				else:
+					out.append(s2)
+		cur, out = out, []
+		if model:
+			for s in cur:
+				o2 = self.obj(s)
+				s.frames[0].locals[5] = Agg("Object", None, (("vec", o2.fields[0][1][:-1]), ("imap", ())))
+				ok1 = run([s], prog.by["@eq"], [Ref(0, 1, ()), Ref(0, 5, ())], lambda r, s: r is False, "C14:object-eq-is-entry-list-equality")
+				ok2 = run(ok1, prog.by["@cmp"], [Ref(0, 1, ()), Ref(0, 5, ())], lambda r, s: isinstance(r, Agg) and r.variant == "Greater", "C14:object-cmp-equal-exactly-when-eq")
+				out += ok2
+		else:
+			out = cur
+		for s in out:
+			for k in (5, 6, 7):
+				s.frames[0].locals.pop(k, None)
+		return out
+
 	def explore(self, depth, budget):
 		t0 = time.time()
 		st = State()
@@ -968,6 +1123,19 @@ class Explorer:
 		self.timed_out = False
 		while work:
 			s, model, hist = work.pop()
+			if self.with_content and hist:
+				try:
+					survivors = self.content_checks(s, model, hist)
+				except MirError as e:
+					if "PANIC" in str(e):
+						self.violation(s, hist, "C14:operation-panics", str(e)[:200])
+						continue
+					raise
+				for extra in survivors[1:]:
+					work.append((extra, model, hist))
+				if not survivors:
+					continue
+				s = survivors[0]
 			if len(hist) >= depth:
 				self.paths += 1
 				if self.paths % self.sample_every == 1 and len(self.samples) < 400:
@@ -1051,7 +1219,8 @@ def expected_lines(ops):
 		for k in keys:
 			ix = [i for i, e in enumerate(m) if e[0] == k]
 			qs.append("%s:%s:%s:Some(%d)" % (k, ".".join(map(str, ix)), ".".join(kv(m[i]) for i in ix), ix[0]))
-		return "S %s Q %s" % (",".join(kv(e) for e in m), ";".join(qs))
+		es = ",".join(kv(e) for e in m)
+		return "S %s Q %s C true %s Equal" % (es, ";".join(qs), es)
 
 	def took(removed, c):
 		return "|".join(kv(removed[i]) if i < len(removed) else "-" for i in range(c))
